@@ -508,6 +508,106 @@ def count_pairs(P):
     return pairs
 
 
+def _filled_before_any_exit(F, store, af, cfld):
+    """every path from the allocation to a function exit runs a loop `for(j<count) arr[j]=..` to its normal end: the loop is left
+    only through its head, and no return lies between the allocation and the loop"""
+    loops = cfg.loops(F)
+    b0 = F.pos[store][0]
+    for h, body in loops.items():
+        t = F.blocks[h].get('term')
+        if not t or t.get('cond') is None:
+            continue
+        if not any(F.ex[q]['k'] == 'member' and F.ex[q].get('field') == cfld for q in F.walk(t['cond'])):
+            continue
+        fills = False
+        for e in F.pos:
+            if F.pos[e][0] in body and F.ex[e]['k'] == 'assign' and F.ex[e]['op'] == '=':
+                l = F.ex[F.strip_casts(F.ex[e]['c'][0])]
+                if l['k'] == 'sub':
+                    b = F.ex[F.strip_casts(l['c'][0])]
+                    if b['k'] == 'member' and (b.get('record'), b.get('field')) == af:
+                        fills = True
+        if not fills or b0 in body:
+            continue
+        # the loop is left only through its head
+        if any(s_ is not None and s_ not in body for b_ in body if b_ != h for s_ in F.blocks[b_]['succs']):
+            continue
+        # from the allocation every path reaches the head before any exit
+        seen, st, bad = set(), [b0], False
+        while st and not bad:
+            b = st.pop()
+            if b in seen or b == h:
+                continue
+            seen.add(b)
+            if b == F.exit or any(F.ex[e]['k'] == 'ret' for e in F.blocks[b]['elems'] if b != b0 or (F.ex[e].get('loc') or [0])[0] >= (F.ex[store].get('loc') or [0])[0]):
+                bad = True
+            for s_ in F.blocks[b]['succs']:
+                if s_ is not None:
+                    st.append(s_)
+        if not bad:
+            return True
+    return False
+
+
+def r13_14(chk, P, rule='R13.14'):
+    chk.rule(rule, 'what a release function will walk is initialised: for every (owning pointer array, count field) pair derived from '
+             'the release functions, each store of a fresh block into the array field is zero-filling (calloc), keeps an initialised '
+             'prefix (realloc: growth is R13.8\'s append idiom), or happens while the count field is known to be 0 (K4).  A malloc\'ed '
+             'array under a count that is already set holds heap garbage in the slots a failing fill loop has not reached, and the '
+             'clear function that follows the rejection frees them')
+    import absint
+    pairs = count_pairs(P)
+    chk.require(len(pairs) >= 5, f'only {len(pairs)} (array, count) pairs derived from the release functions')
+    n = 0
+    for F in P.functions():
+        if F.entry is None:
+            continue
+        stores = []
+        for e in sorted(F.pos):
+            nd = F.ex[e]
+            if nd['k'] != 'assign' or nd['op'] != '=':
+                continue
+            l = F.ex[F.strip_casts(nd['c'][0])]
+            if l['k'] != 'member' or (l.get('record'), l.get('field')) not in pairs:
+                continue
+            r = F.ex[F.strip_casts(nd['c'][1])]
+            if r['k'] != 'call':
+                continue
+            nm = r['callee'].get('d')
+            if nm in ('calloc', 'realloc', 'malloc'):
+                stores.append((e, (l['record'], l['field']), nm, F.strip_casts(nd['c'][0])))
+        if not stores:
+            continue
+        vals = {}
+        if any(nm == 'malloc' for (_, _, nm, _) in stores):
+            def obs(A, env, e, v, stores=stores):
+                for (se, af, nm, lhs) in stores:
+                    if e == se and nm == 'malloc':
+                        crec, cfld, rel = pairs[af]
+                        base = A.rpath(A.ex[lhs]['c'][0], env)
+                        cv = A.get(env, f'{base}->{cfld}') if base else absint.TOP
+                        vals[se] = cv if se not in vals else absint.join(vals[se], cv)
+            A = absint.Analyzer(P, F)
+            A.observers.append(obs)
+            A.run()
+        k_ = {}
+        for (e, af, nm, lhs) in stores:
+            i = k_.get(af, 0)
+            k_[af] = i + 1
+            crec, cfld, rel = pairs[af]
+            if nm == 'malloc':
+                cv = vals.get(e)
+                ok = cv is not None and cv.const() == 0
+                msg = f'malloc with {crec}.{cfld} = {cv}' + ('' if ok else f': {rel} frees that many elements of a block nobody has filled')
+                if not ok and _filled_before_any_exit(F, e, af, cfld):
+                    ok, msg = True, f'malloc with {crec}.{cfld} = {cv}, followed on every path by a loop over the count that fills every element and has no other exit'
+            else:
+                ok, msg = True, f'{nm}: ' + ('zero-filled' if nm == 'calloc' else 'the initialised prefix is kept')
+            chk.ob(rule, F.name, f'array-initialised-for-its-release:{af[1]}#{i}', ok, F.where(e), msg)
+            n += 1
+    return n
+
+
 def r13_8(chk, P, K, res):
     chk.rule('R13.8', 'where a release function frees the elements of an owning pointer array in a loop bounded by a count field '
              '(pairs derived from the release functions), every store of fresh memory into an element of that array is covered '
@@ -986,6 +1086,8 @@ def run(chk, P):
     r13_6(chk, P, K)
     chk.floor('R13.6', 4)
     r13_8(chk, P, K, res)
+    r13_14(chk, P)
+    chk.floor('R13.14', 7)
     chk.floor('R13.8', 8)
     r13_9(chk, P, K)
     chk.floor('R13.9', 1)
